@@ -109,7 +109,7 @@ def equiv(a, b, timeout_ms):
 
 
 def run(tier='quick', seed=0):
-    R = report.Run('C03', tier, seed, category='proof')
+    R = report.Run('C03', tier, seed, category='other')
     R.functions = ['generate_classes.utils (module level load)', 'xsdtree._generate_xsd_tree', 'XMLChildContainerFactory._create_child_container',
                    'XMLChildContainer._populate_children', '_convert_xsd_child_to_xsd_container', 'XMLChildContainer.__copy__',
                    'XSDComplexType.get_xsd_indicator', 'XSDComplexType.get_xsd_attributes', 'XSDAttributeGroup.get_xsd_attributes',
